@@ -1,6 +1,7 @@
 """C08: scope types gate a policy independently of its check string (a finite table)."""
 import itertools
 
+from common import corr_kind
 from world import base_case, run_cases, describe, out_of_model, agree, convert_creds
 
 GEN = ['GPolicy.v', 'GChecks.v', 'GParser.v']
@@ -9,7 +10,7 @@ SCOPES = ['system', 'domain', 'project']
 
 
 def type_lists():
-    out = [None]
+    out = [None, []]
     for n in (1, 2, 3):
         out += [list(p) for p in itertools.permutations(SCOPES, n)]
     return out
@@ -134,7 +135,7 @@ def run(run, binfo):
     if bad_corr and not run.violations:
         c, m, i = bad_corr[0]
         run.violation('correspondence:S4', 'model and implementation disagree on a scope row',
-                      {'kind': 'broken-obligation', 'obligation': 'correspondence suite S4 (scope table)',
+                      {'kind': corr_kind(m), 'oracle': 'the Coq model, for which the property is proved', 'obligation': 'correspondence suite S4 (scope table)',
                        'input': describe(c), 'model': m, 'observed': i, 'count': len(bad_corr)})
     run.rule = ('the complete table of the quantifier: every ordered non-empty subset of {system, domain, project} and none as '
                 'scope types x 8 combinations of system scope / domain id / project id x both spellings (system, system_scope) '
